@@ -5,6 +5,7 @@ CONSTANTS
   MaxChange = 2
   Bug = "split_second_rebased"
   Emit = FALSE
+  Directed = FALSE
   Shapes <- ShapesQuick
 INVARIANTS InvLaws
 CHECK_DEADLOCK FALSE
